@@ -65,6 +65,20 @@ CHECKS['C08'] = dict(
          "of 30-60 calls over a pool of derived objects are recorded with the full projection (bits, refs, hash, sha256 of to_boc) of every live "
          "object after every call; TLC checks the frame condition, immutability, argument preservation and history-independence of Cell.order.",
     note=BAGNOTE, tech="TLA+ frame conditions as action properties (TLC) + trace validation with full-state logging after every call", ref="8/C08")
+CHECKS['C09'] = dict(
+    text="TonHashmap defines the Patricia tree of a map and an independent parser for all label kinds; TLC checks Parse(Build(m)) = m for every "
+         "key set of width 3 (4 thorough) under 7 label policies, plain and augmented. Every such key set, wider sparse sets and random sets "
+         "up to width 1023 are serialised by the library in several insertion orders and parsed through six entry points; TLC decodes the "
+         "emitted cells itself and compares pairs, order, order-independence, emptiness and key-range rejection, for five key forms.",
+    note="TonHashmap transcription of hm_edge/hml_*; values are 8..32-bit unsigned integers; key widths above 900 only with compressible keys (a leaf must fit a cell)",
+    tech="TLA+ Hashmap spec model-checked by TLC over all key sets; TLC-enumerated maps replayed; recorded cells and parse results validated by TLC", ref="8/C09")
+CHECKS['C10'] = dict(
+    text="RefKind (transcribed append_dict_label) is model-checked equal to the declarative shortest-with-tie-break rule for every (n, m, same) "
+         "up to the cfg bound; the library's label choice is observed through the emitted root cell for thousands of triples incl. every decision "
+         "boundary; emitted cells must equal the canonical tree structurally (root hash recomputed by TLC on a sample); the plain and augmented "
+         "parsers are run on every tree TLC builds for every key set x 7 label policies and on prunings of them.",
+    note="RefKind transcription from memory of dict.cpp (cross-checked by the MinKind lemma); pruned branches carry library hashes (inputs)",
+    tech="TLC lemma over all label triples + TLC-generated valid/non-canonical/pruned trees replayed into the parsers + TLC validation of results", ref="8/C10")
 NOT_APPLICABLE = []
 def main():
     checks = []
